@@ -642,13 +642,13 @@ func C19(c *Ctx) {
 		amt := w.ExprOf(call.Common().Args[0])
 		okAmt := false
 		for _, up := range w.OriginsUp(ed.From, amt, 3) {
-			e := up.E
-			okAmt = e.Op == "elem" && e.Args[0].Op == "param" || e.Op == "param"
+			e := w.Expand(up.E, 3)
+			okAmt = sameAmountText(e)
 			if !okAmt {
 				break
 			}
 		}
-		r.Require(okAmt, "A7.cli-amount", fn(ed.From), pos(c, ed.Site), "the convert command passes the amount argument to the conversion unchanged (no slicing, trimming or re-formatting)", "amount argument: "+amt.String())
+		r.Require(okAmt, "A7.cli-amount", fn(ed.From), pos(c, ed.Site), "the convert command passes the amount argument to the conversion as typed (at most surrounding space and non-numeric separators removed: no slicing, no re-formatting through a number type)", "amount argument: "+amt.String())
 	}
 	r.Floor("convert command call sites", ncli, 1)
 }
@@ -663,4 +663,30 @@ func constVal(pk *types.Package, name string) constant.Value {
 		return o.Val()
 	}
 	return nil
+}
+
+// sameAmountText: the text is the command-line argument itself, possibly cleaned by operations that cannot change the
+// number it spells: surrounding white space trimmed, a constant separator that contains no digit, sign, point, exponent
+// or fraction character removed. Anything else (slicing, formatting a parsed number back into text) may change digits.
+func sameAmountText(e *ir.Expr) bool {
+	for _, a := range e.Alts() {
+		switch {
+		case a.Op == "param" || a.Op == "elem" && len(a.Args) > 0 && a.Args[0].Op == "param":
+		case a.Op == "call" && a.Name == "strings.TrimSpace" && len(a.Args) == 1:
+			if !sameAmountText(a.Args[0]) {
+				return false
+			}
+		case a.Op == "call" && a.Name == "strings.ReplaceAll" && len(a.Args) == 3:
+			old, nw := a.Args[1], a.Args[2]
+			if old.Op != "const" || nw.Op != "const" || nw.Name != `""` || strings.ContainsAny(strings.Trim(old.Name, `"`), "0123456789.+-eE/xX") || len(strings.Trim(old.Name, `"`)) == 0 {
+				return false
+			}
+			if !sameAmountText(a.Args[0]) {
+				return false
+			}
+		default:
+			return false
+		}
+	}
+	return true
 }
